@@ -684,6 +684,8 @@ class KeyPathSet(formatting.Formattable):
   ) -> None:
     """Returns a KeyPathSet with the given prefix path added."""
     root_path = KeyPath.from_value(root_path)
+    if not self._trie:
+      return
     root = self._trie
     for key in reversed(root_path.keys):
       root = {key: root}
